@@ -506,7 +506,7 @@ class Gen:
             if any(t[0] in ("variable", "param") and t[1] == name for t in tops):
                 continue
             cxg = {"rank": len(MODES) - 1, "down": False, "named": True, "index": 0, "noapply": True}
-            genv = dict(genv0, **{"#nopos": True}) if r.random() < 0.9 else dict(genv0)
+            genv = dict(genv0, **{"#nopos": True}) if r.random() < 0.9 and "K-C01-2b" not in OPEN_CLASSES else dict(genv0)
             vd, ty = self.vdef(cxg, dict(genv), 2)
             if name in genv0 and genv0[name] != ty:
                 # the same global defined with different types in different modules: keep one type so
@@ -526,7 +526,7 @@ class Gen:
                 self.budget = max(self.budget, 8)
                 cx = {"rank": 0, "down": True, "named": False}
                 env = dict(genv)
-                if r.random() < 0.9:
+                if r.random() < 0.9 and "K-C01-2a" not in OPEN_CLASSES:
                     env["#nopos"] = True     # class of the known finding K-C01-2 (position()/last() for the initial node)
                 tops.append(("template", {"match": [P([("root", "root", [])])],
                                           "body": [("lre", "out", [], self.body(cx, env, 3, in_elem=True))]}))
